@@ -133,8 +133,41 @@ func (g *Gen) enumConfReuse() {
 	g.end()
 }
 
+// enumSeparators: declared value lists that differ but read the same when joined by a separator
+func (g *Gen) enumSeparators() {
+	pairs := [][2][]string{{{"x,y", "z"}, {"x", "y,z"}}, {{"p", "q"}, {"p,q"}}, {{"a|b", "c"}, {"a", "b|c"}}, {{"a\x00b"}, {"a", "b"}}, {{"a b", "c"}, {"a", "b c"}}}
+	for _, pr := range pairs {
+		g.begin("enum separators")
+		for rep := 0; rep < 2; rep++ {
+			for _, decl := range pr {
+				strs := []*BS{}
+				for _, v := range decl {
+					strs = append(strs, bsp(v))
+				}
+				strs = append(strs, bsp(decl[0]), nil)
+				f := g.do(Step{Op: "New", Recv: -1, HasOrder: true, ColOrder: bsList([]string{"E"}), HasEnums: true,
+					Enums: []EnumDecl{{Name: toBS("E"), Vals: bsList(decl)}}, Data: []ColData{{Name: toBS("E"), Kind: "string", Strs: strs}}})
+				if g.frame(f).Err == nil {
+					g.do(Step{Op: "Sort", Recv: f, Orders: []Order{{Col: toBS("E")}}})
+					g.do(Step{Op: "ToCSV", Recv: f})
+					g.do(Step{Op: "ReadCSV", Other: f + 1, Csv: &CsvConf{HasTypes: true, Types: []TypeDecl{{Name: toBS("E"), Typ: "enum"}}, HasEnumVals: true, EnumVals: []EnumDecl{{Name: toBS("E"), Vals: bsList(decl)}}}})
+				}
+				// a value of the OTHER list is undeclared here
+				other := pr[0]
+				if &decl[0] == &pr[0][0] {
+					other = pr[1]
+				}
+				g.do(Step{Op: "New", Recv: -1, HasOrder: true, ColOrder: bsList([]string{"E"}), HasEnums: true,
+					Enums: []EnumDecl{{Name: toBS("E"), Vals: bsList(decl)}}, Data: []ColData{{Name: toBS("E"), Kind: "string", Strs: []*BS{bsp(other[len(other)-1])}}}})
+			}
+		}
+		g.end()
+	}
+}
+
 func genC17(g *Gen) {
 	g.enumPaths()
+	g.enumSeparators()
 	g.enumConfReuse()
 	rid := toBS("rid")
 	cards := []int{1, 2, 3, 5, 63, 64, 65, 127, 128, 129, 191, 192, 193, 253, 254, 255, 256, 300}
